@@ -77,6 +77,7 @@ impl SeqSpec {
 #[derive(Debug, Clone, serde::Serialize)]
 pub struct Violation {
     pub spec: String,
+    pub ops: Vec<Op>,
     pub history: Vec<String>,
     pub findings: Vec<Finding>,
 }
@@ -511,6 +512,7 @@ pub fn bfs(spec: &SeqSpec, threads: usize, known: &KnownFn) -> SeqResult {
                 if violations.len() < 20 {
                     violations.push(Violation {
                         spec: spec.name.clone(),
+                        ops: hist.clone(),
                         history: hist.iter().map(|o| o.short()).collect(),
                         findings: real,
                     });
